@@ -52,13 +52,15 @@ func verifC17Arbitrary(k, nctx int) {
 	}
 	for i := 0; i < k; i++ {
 		nm := "c" + zzverif.Itoa(i)
-		switch zzverif.Choice(nm+".wide", 3) {
+		switch zzverif.Choice(nm+".wide", 4) {
 		case 0:
 			slots = append(slots, slot{string([]byte{zzverif.ByteIn(nm, c17ArbA)}), 1})
 		case 1:
 			slots = append(slots, slot{"é", 1})
-		default:
+		case 2:
 			slots = append(slots, slot{"😀", 2})
+		default:
+			slots = append(slots, slot{"\r\n", 0}) // a CR LF line end (e.g. after an unclosed code or quote)
 		}
 		doc += slots[len(slots)-1].s
 	}
@@ -69,6 +71,10 @@ func verifC17Arbitrary(k, nctx int) {
 	lines := []c17ArbLine{{}}
 	for _, sl := range slots {
 		cur := &lines[len(lines)-1]
+		if sl.s == "\r\n" {
+			lines = append(lines, c17ArbLine{})
+			continue
+		}
 		if len(sl.s) == 1 {
 			switch sl.s[0] {
 			case '\n':
